@@ -40,6 +40,7 @@ def plan(tier, seed):
     shards.append(("alias",))
     shards += [("uniqlist", g) for g in GROUPS]
     shards += [("threads", g) for g in GROUPS]
+    shards += [("idxpoint", k_) for k_ in range(4)]
     names = list(GROUPS)
     for a in names:
         shards.append(("history", a, 2 if tier == "quick" else 3))
@@ -361,7 +362,57 @@ def _run_threads(desc):
     return sh
 
 
+def _run_idxpoint(desc):
+    """point_by_point.idxpoint (indexing at one sample point, the worker of the point-by-point scan): whatever the number of
+    orientations found at the point (one or two here), every matrix it returns is the canonical setting of its symmetry orbit, i.e.
+    equal to find_uniq_u of the true grain, and indexes the grain's peaks"""
+    _, k_ = desc
+    import io, contextlib
+    from ImageD11 import sym_u, transform as tr, parameters as P, unitcell as ucm, indexing
+    from ImageD11.sinograms import point_by_point as pbp
+    from vt.props import c09
+    indexing.loglevel = 4
+    sh = Shard()
+    pars = c09.geometries("quick")[(k_ * 5) % 32]
+    grp = sym_u.cubic()
+    for ng in (1, 2):
+        truth = [(u, np.zeros(3)) for u, t in c09.true_grains(ng, seed_of() + k_, strained=False)]
+        # present the grains in a non-canonical setting (another member of the orbit)
+        truth = [(np.dot(np.asarray(grp.group[(7 * q + 5) % len(grp.group)], float), u), t) for q, (u, t) in enumerate(truth)]
+        pk = c09.simulate(tr, pars, truth)
+        det = {k: pars[k] for k in ("distance", "y_center", "z_center", "y_size", "z_size", "tilt_x", "tilt_y", "tilt_z", "o11", "o12", "o21", "o22")}
+        xyz = tr.compute_xyz_lab(np.array([pk[:, 0], pk[:, 1]]), **det)
+        omega = pk[:, 2].copy()
+        so, co = np.sin(np.radians(omega * pars["omegasign"])), np.cos(np.radians(omega * pars["omegasign"]))
+        pbp.ucglobal = ucm.unitcell(c09.CELL, c09.SYM)
+        pbp.symglobal = grp
+        pbp.parglobal = P.parameters(**pars)
+        n = len(omega)
+        with contextlib.redirect_stdout(io.StringIO()):
+            res = pbp.idxpoint(0, 0, np.ones(n, bool), omega, so, co, np.zeros(n, int), xyz[0].copy(), xyz[1].copy(), xyz[2].copy(), pk[:, 8].copy(),
+                               ystep=1.0, y0=0.0, ymin=0.0, minpks=int(0.6 * n / ng), hkl_tol=0.03, ds_tol=0.005, forgen=[0, 1, 2], uniqcut=0.5, hmax=8)
+        indexing.loglevel = 4
+        case = {"kind": "idxpoint", "geometry": (k_ * 5) % 32, "ngrains_at_the_point": ng, "seed": seed_of()}
+        found = [np.asarray(r_[2], float) for r_ in res if r_[0] > 0]
+        if len(found) != ng:
+            sh.violation("idxpoint:number-of-orientations-at-the-point", case, {"found": len(found)})
+        else:
+            for u_true, _ in truth:
+                want = sym_u.find_uniq_u(u_true, grp)
+                if not any(np.abs(f - want).max() < 1e-3 * np.abs(want).max() for f in found):
+                    sh.violation("idxpoint:returned-orientation-is-not-the-canonical-setting", case,
+                                 {"returned_traces": [float(np.trace(f)) for f in found], "canonical_trace": float(np.trace(want))})
+                    break
+        sh.evaluations += 1
+        sh.nontrivial += 1
+        sh.outcomes.add(("idxpoint", ng))
+    sh.sample(case, limit=1)
+    return sh
+
+
 def run_shard(desc):
+    if desc[0] == "idxpoint":
+        return _run_idxpoint(desc)
     if desc[0] == "threads":
         return _run_threads(desc)
     if desc[0] == "uniqlist":
@@ -376,6 +427,8 @@ def replay(case):
     if kind == "history":
         r = _run_history(("history", case["history"][0], len(case["history"])))
         r.violations = [v for v in r.violations if v["case"]["history"] == case["history"]]
+    elif kind == "idxpoint":
+        r = _run_idxpoint(("idxpoint", [q for q in range(4) if (q * 5) % 32 == case["geometry"]][0]))
     elif kind == "alias":
         r = _run_alias(("alias",))
     else:
